@@ -112,6 +112,19 @@ def step (st : St) (ws : List String) : St × String :=
         (match hexArg k with
          | some k => let (s', o) := I.step s (.fetch k); (some ⟨c, s'⟩, showOut o)
          | none => (st, "bad-op"))
+      | ["sub", k, off, len] =>
+        -- ranged fetch (blob.SubFetcher): a read-only projection of fetch – no store changes its state
+        -- on SubFetch (proxycache neither populates nor touches, memory's cache mode does not touch)
+        (match hexArg k, off.toInt?, len.toInt? with
+         | some k, some off, some len =>
+           if off < 0 || len < 0 then (st, "neg") else
+           (match (I.step s (.fetch k)).2 with
+            | .bytes v =>
+              if off.toNat > v.length then (st, "range")
+              else (st, "bytes " ++ toHexString ((v.drop off.toNat).take len.toNat))
+            | .notExist => (st, "notexist")
+            | _ => (st, "err"))
+         | _, _, _ => (st, "bad-op"))
       | ["enum", a, n] =>
         (match hexArg a, n.toNat? with
          | some a, some n => let (s', o) := I.step s (.enum a n); (some ⟨c, s'⟩, showOut o)
